@@ -25,6 +25,18 @@ impl<T> BaseArc<T> {
     pub fn strong_count(&self) -> usize {
         Arc::strong_count(&self.0)
     }
+    pub fn as_ptr(&self) -> *const T {
+        Arc::as_ptr(&self.0)
+    }
+    /// exclusive access when this is the only handle (tarc: `get_mut`)
+    pub fn get_mut(&mut self) -> Option<&mut T> {
+        Arc::get_mut(&mut self.0)
+    }
+    /// # Safety
+    /// `ptr` must come from `into_raw` and the allocation must be alive.
+    pub unsafe fn decrement_strong_count(ptr: *const T) {
+        Arc::decrement_strong_count(ptr)
+    }
 }
 
 impl<T> Clone for BaseArc<T> {
